@@ -30,9 +30,12 @@ Pre == <<
   [t |-> "arr", ty |-> "complex", x |-> "Cx", shape |-> <<>>, rows |-> << <<Cpx(1, -2), F(1, 2), I(3)>> >>],
   [t |-> "arr", ty |-> "int", x |-> "Z", shape |-> <<>>, rows |-> << <<I(1)>>, <<NegE(I(4))>> >>],
   [t |-> "arr", ty |-> "int", x |-> "Ra", shape |-> <<>>, rows |-> << <<I(1), I(2), I(3), I(4)>> >>],
-  [t |-> "arr", ty |-> "int", x |-> "Rb", shape |-> <<>>, rows |-> << <<I(1), I(2)>>, <<I(3), I(4)>> >> ] >>
+  [t |-> "arr", ty |-> "int", x |-> "Rb", shape |-> <<>>, rows |-> << <<I(1), I(2)>>, <<I(3), I(4)>> >> ],
+  [t |-> "arr", ty |-> "float", x |-> "Rf", shape |-> <<>>, rows |-> << <<I(1), I(2), I(3), I(4)>> >>],            \* the entries of Ra as floats
+  [t |-> "arr", ty |-> "complex", x |-> "Rc", shape |-> <<>>, rows |-> << <<I(1), I(2), I(3), I(4)>> >>] >>        \* ... and as complex numbers
 Items == {
   Stmt("Two", TRUE, <<Var("Ra"), Var("Rb")>>, <<Kw("again", Var("Ra"))>>, <<I(0), I(1)>>, "sq"),
+  Stmt("Eq", TRUE, <<Var("Ra"), Var("Rf")>>, <<Kw("c", Var("Rc")), Kw("again", Var("Rf"))>>, <<I(1), I(2)>>, "sq"),
   Stmt("Vac", FALSE, <<>>, <<>>, <<I(0)>>, "none"),
   Stmt("K", TRUE, <<>>, <<>>, <<I(1)>>, "none"),
   Stmt("S", TRUE, <<F(1, 2), NegE(F(1, 4)), I(3), Cpx(1, 2), Cpx(0, -1)>>, <<>>, <<I(0)>>, "none"),
